@@ -1,6 +1,7 @@
 package chain
 
 import (
+	"github.com/oasisprotocol/oasis-core/go/common/quantity"
 	"fmt"
 
 	"pgregory.net/rapid"
@@ -88,6 +89,13 @@ func (g *TxGen) migrationVerdict(nk *NodeKeys, to *EntityKeys) string {
 }
 
 // GenRegistry draws one registry transaction for the C17 profile.
+// Signatures of the two recorded registry findings whose preconditions the generator only builds when allowed
+// (TxGen.Allow), i.e. while they are not listed as known.
+const (
+	SigStaleNodeClaims  = "stale-node-claims-after-runtime-threshold-change"
+	SigNodeKeyAsSubKey = "node-identity-key-used-as-subkey"
+)
+
 func (g *TxGen) GenRegistry(t *rapid.T) *RegTx {
 	w := g.W
 	nodes := w.allNodes()
@@ -163,7 +171,13 @@ func (g *TxGen) GenRegistry(t *rapid.T) *RegTx {
 		unauthorized := ""
 		var migratedTo *EntityKeys
 		if !isAnchor {
-			switch rapid.IntRange(0, 7).Draw(t, "rot") {
+			switch rapid.IntRange(0, 8).Draw(t, "rot") {
+			case 8:
+				// the IDENTITY key of another node as this node's P2P key (its holder co-signs: the harness owns every key)
+				if other := nodes[rapid.IntRange(0, len(nodes)-1).Draw(t, "idAsSub")].N; other != nk && g.Allow[SigNodeKeyAsSubKey] {
+					p2p = other.ID
+					note = "identity key of another node as p2p key"
+				}
 			case 0:
 				p2p, tls = tls, p2p
 				note = "swap p2p<->tls"
@@ -406,11 +420,20 @@ func (g *TxGen) GenRegistry(t *rapid.T) *RegTx {
 		}
 		rt := *w.Runtime
 		rt.Executor.RoundTimeout = int64(rapid.IntRange(2, 6).Draw(t, "newRoundTimeout"))
+		thresholdsChanged := false
 		toRuntimeGov := false
 		if rt.GovernanceModel == registry.GovernanceEntity && rapid.IntRange(0, 2).Draw(t, "toRuntimeGov") == 0 {
 			// hand the runtime over to runtime governance (same owning entity): its stake claim moves to the runtime's account
 			rt.GovernanceModel = registry.GovernanceRuntime
 			toRuntimeGov = true
+		}
+		if g.Allow[SigStaleNodeClaims] && rapid.IntRange(0, 2).Draw(t, "rtThresholds") == 0 {
+			// the runtime changes what it demands of the nodes that serve it (per-runtime stake thresholds)
+			rt.Staking.Thresholds = map[staking.ThresholdKind]quantity.Quantity{}
+			if v := uint64(rapid.SampledFrom([]int{0, 7, 100}).Draw(t, "rtNodeThreshold")); v > 0 {
+				rt.Staking.Thresholds[staking.KindNodeCompute] = q(v)
+			}
+			thresholdsChanged = true
 		}
 		overLimit := ""
 		switch rapid.IntRange(0, 7).Draw(t, "rtOverLimit") {
@@ -447,7 +470,12 @@ func (g *TxGen) GenRegistry(t *rapid.T) *RegTx {
 		res := &RegTx{TxDesc: d, Unauthorized: unauthorized}
 		if unauthorized == "" {
 			nrt := rt
-			res.OnSuccess = func() { w.Runtime = &nrt }
+			res.OnSuccess = func() {
+				w.Runtime = &nrt
+				if thresholdsChanged {
+					g.W.RtThresholdsChanged = true
+				}
+			}
 		}
 		return res
 	}
